@@ -50,6 +50,36 @@ def parse_help(path):
     return shorts, longs, pairs
 
 
+def flush_rule(facts, f3):
+    """every non-error return of the value writer is preceded by a flush of the sink"""
+    wj = facts.mir_fn("jaq_fmts::write::formats::write")
+    if wj is None:
+        f3.missing_anchor("jaq_fmts::write::formats::write")
+    else:
+        b = Body(wj)
+        flushes = b.find_calls(r"std::io::Write::flush$")
+        # error returns: blocks that build the Break/Err result
+        err_blocks = set(b.find_calls(r"FromResidual<.*>>::from_residual$|FromResidual::from_residual$"))
+        for i, bb in enumerate(b.bbs):
+            for s in bb["st"]:
+                if s.get("k") == "A" and s["p"]["l"] == 0 and s["r"].get("k") == "Agg" and s["r"].get("variant") == "Err":
+                    err_blocks.add(i)
+        reach = b.reachable(0, removed_nodes=set(flushes) | err_blocks, unwind=False)
+        bad = [x for x in reach if b.bbs[x]["t"]["k"] == "Return"]
+        f3.examined("flush", True, {"flush_calls": len(flushes), "success_returns_without_flush": len(bad)})
+        if not flushes:
+            f3.violate("flush/none", "the value writer never flushes its sink", where=wj["sp"])
+        elif bad:
+            f3.violate("flush/path", "there is a successful return of the value writer that does not flush the sink: an output may stay in a buffer while the next one is computed (or be lost with --in-place)", where=b.bbs[bad[0]]["t"]["sp"])
+        # the flush result must be returned / checked
+        for fb in flushes:
+            res = b.call_result_local(fb)
+            used = res == 0 or any(res in rvalue_reads(s["r"]) for bb in b.bbs for s in bb["st"] if s.get("k") == "A") or any(res in [op_local(a) for a in t["args"]] for _, t in b.calls())
+            f3.examined(("flush-result", b.bbs[fb]["t"]["sp"]), True)
+            if not used:
+                f3.violate("flush/ignored", "the result of flush is discarded", where=b.bbs[fb]["t"]["sp"])
+
+
 def run(facts, tier):
     t0 = time.time()
     rules = []
@@ -178,32 +208,7 @@ def run(facts, tier):
 
     # ---------------- F17.3 flush after each output + terminator table
     f3 = Rule("F17.3", "the value writer flushes its sink on every non-error return (each output is delivered completely before the next is computed), and the terminator written after a value is the documented one per format and --join-output", floor=10)
-    wj = facts.mir_fn("jaq_fmts::write::formats::write")
-    if wj is None:
-        f3.missing_anchor("jaq_fmts::write::formats::write")
-    else:
-        b = Body(wj)
-        flushes = b.find_calls(r"std::io::Write::flush$")
-        # error returns: blocks that build the Break/Err result
-        err_blocks = set(b.find_calls(r"FromResidual<.*>>::from_residual$|FromResidual::from_residual$"))
-        for i, bb in enumerate(b.bbs):
-            for s in bb["st"]:
-                if s.get("k") == "A" and s["p"]["l"] == 0 and s["r"].get("k") == "Agg" and s["r"].get("variant") == "Err":
-                    err_blocks.add(i)
-        reach = b.reachable(0, removed_nodes=set(flushes) | err_blocks, unwind=False)
-        bad = [x for x in reach if b.bbs[x]["t"]["k"] == "Return"]
-        f3.examined("flush", True, {"flush_calls": len(flushes), "success_returns_without_flush": len(bad)})
-        if not flushes:
-            f3.violate("flush/none", "the value writer never flushes its sink", where=wj["sp"])
-        elif bad:
-            f3.violate("flush/path", "there is a successful return of the value writer that does not flush the sink: an output may stay in a buffer while the next one is computed (or be lost with --in-place)", where=b.bbs[bad[0]]["t"]["sp"])
-        # the flush result must be returned / checked
-        for fb in flushes:
-            res = b.call_result_local(fb)
-            used = res == 0 or any(res in rvalue_reads(s["r"]) for bb in b.bbs for s in bb["st"] if s.get("k") == "A") or any(res in [op_local(a) for a in t["args"]] for _, t in b.calls())
-            f3.examined(("flush-result", b.bbs[fb]["t"]["sp"]), True)
-            if not used:
-                f3.violate("flush/ignored", "the result of flush is discarded", where=b.bbs[fb]["t"]["sp"])
+    flush_rule(facts, f3)
     wh = facts.hir_fn("jaq_fmts::write::formats::write")
     fmts = adt_variants(facts, "jaq_fmts::Format")
     TERM = {"Cbor": (b"", b""), "Toml": (b"", b""), "Raw0": (b"\0", b"\0"), "Yaml": (b"\n", b"\n"), "Csv": (b"\n", b"\n"), "Tsv": (b"\n", b"\n"),
